@@ -122,6 +122,8 @@ TEMPLATES = [
     ("pre.e1", "/e1/<string:v>", [("v", "text")], "/e1/{v}"),  # inside EndpointPrefix('pre.')
     ("anyq", '/anyq/<any("a b","x?y","é","50%","a#b"):v>', [("v", "anyq")], "/anyq/{v}"),
 ]
+# host_matching only: ONE endpoint served on two hosts under different paths (build must prefer the bound host)
+HOST_FAMILY = [("/h1/<int:v>", SERVER, "/h1/{v}"), ("/h2/<int:v>", "other." + SERVER, "/h2/{v}")]
 TNAMES = [t[0] for t in TEMPLATES]
 TIDX = {t[0]: i for i, t in enumerate(TEMPLATES)}
 EXTRA_DEFAULTS = {"d": [1], "lang": ["en"]}  # values that hit the defaults rule of a family
@@ -174,8 +176,11 @@ def make_map(kind, names, strict=True, merge=True):
             rules.append(Subdomain("api", r2))
         else:
             rules += rs
+    if kind == "host":
+        for rs_, h_, _ in HOST_FAMILY:
+            rules.append(Rule(rs_, endpoint="hh", host=h_))
     if mount:
-        rules.append(Submount("/m", mount))
+        rules.append(Submount("/m/", mount))  # trailing slash: Submount strips it
     if prefixed:
         rules.append(EndpointPrefix("pre.", prefixed))
     kw = {"strict_slashes": strict, "merge_slashes": merge}
@@ -259,7 +264,40 @@ def same(a, b):
     return a == b
 
 
+def check_host_family(case):
+    """converse law from a URL that was not produced by build: deliver scheme://host/path of one member of HOST_FAMILY,
+    match with an adapter bound to that host, rebuild with the same adapter -> the URL that was matched."""
+    i, v, script = case["member"], case["values"]["v"], case["script"]
+    _, host, fmt = HOST_FAMILY[i]
+    m = get_map("host", case["names"], True)
+    root = script.rstrip("/")
+    path_info = fmt.format(v=v)
+    ad = m.bind(host, script, url_scheme="https")
+    fails = []
+    try:
+        got = ad.match(path_info)
+    except Exception as e:  # noqa: BLE001
+        return [("hostfamily.match", f"{host}{path_info} -> {e!r}"[:200], "('hh', {'v': %r})" % v)]
+    if got[0] != "hh" or dict(got[1]) != {"v": v}:
+        return [("hostfamily.match", repr(got), "('hh', {'v': %r})" % v)]
+    for fe in (False, True):
+        try:
+            u = ad.build(got[0], got[1], force_external=fe)
+        except Exception as e:  # noqa: BLE001
+            u = repr(e)
+        s = urlsplit(u)
+        if (s.netloc or host) != host or s.path != root + path_info or (fe and s.scheme != "https"):
+            fails.append(("hostfamily.rebuild", f"matched https://{host}{root}{path_info}, built {u}", "the URL that was matched"))
+    return fails
+
+
 def check_case(case):
+    if "member" in case:
+        return check_host_family(case)
+    return _check_case(case)
+
+
+def _check_case(case):
     """case: dict(cfg=index, script, fe, extras=index or dict, names=list of templates in the map, ep, values{name: value},
     strict). Returns list of (check, observed, expected)."""
     kind, scheme, server = CFGS[case["cfg"]]
@@ -492,7 +530,7 @@ def enumerate_cases(tier, seed):
                             cases.append({"cfg": ci, "script": script, "fe": fe, "extras": ei, "names": full_names,
                                           "ep": name, "values": vals})
     # part 2: value sweep (full value sets), configuration rotating
-    n_rand = 0 if tier == "quick" else 4000
+    n_rand = 0 if tier == "quick" else 12000
     for name in TNAMES:
         for kind_i in range(len(CFGS)):
             kind = CFGS[kind_i][0]
@@ -510,6 +548,14 @@ def enumerate_cases(tier, seed):
                 for vals in core_values("plain", name):
                     cases.append({"cfg": 0, "script": "/", "fe": False, "extras": 0, "names": fam, "ep": name, "values": vals,
                                   "strict": strict, "merge": merge})
+    # part 5: host_matching, one endpoint on two hosts: URL -> match -> build with the adapter that matched
+    for member in range(len(HOST_FAMILY)):
+        for script in SCRIPTS:
+            for v in DOMAINS["int"][0]():
+                cases.append({"cfg": 3, "script": script, "fe": False, "extras": 0, "names": full_names, "ep": "hh",
+                              "values": {"v": v}, "member": member})
+                cases.append({"cfg": 3, "script": script, "fe": False, "extras": 0, "names": [], "ep": "hh",
+                              "values": {"v": v}, "member": member})
     if tier == "thorough":
         # part 4: random sub-maps in random order, random configuration
         for _ in range(3000):
@@ -553,7 +599,8 @@ DOMAIN = (
     "multi-segment paths incl. '//' inside) in full product with the configurations; value sweep under every configuration: "
     "all 1- and 2-character texts over 40 special characters (all text templates under plain http, every 5th elsewhere), "
     "ints 0..299, all fixed_digits values 0..999 / -99..999, floats i/8, paths; every template also alone in its map with "
-    "strict_slashes x merge_slashes on/off")
+    "strict_slashes x merge_slashes on/off; host_matching: one endpoint on two hosts (URL -> match -> build on the matching "
+    "adapter)")
 
 
 def run(tier, seed, reg=None):
@@ -583,7 +630,7 @@ def run(tier, seed, reg=None):
         failures += [f for _, f in fails[check][:per]]
     dom = DOMAIN
     if tier == "thorough":
-        dom += ("; thorough adds the value sweep under the subdomain and host configurations, 4000 seeded random values per "
+        dom += ("; thorough adds the value sweep under the subdomain and host configurations, 12000 seeded random values per "
                 "template (texts over the whole of Unicode incl. controls and astral code points, ints up to 10^40, random "
                 "positional floats, random UUIDs, random 1-5 segment paths) and 3000 random sub-maps in random rule order")
     samples = [{"check": "inverse", "input": _inp(c)} for c in cases[:: max(1, len(cases) // 6)][:6]]
@@ -592,7 +639,7 @@ def run(tier, seed, reg=None):
     return {"evaluations": evals, "distinct_nontrivial": len(nontriv),
             "rule": "one evaluation = one build + delivery + 2 matches (bind and bind_to_environ) + 2 rebuilds with all clause "
                     "checks; distinct_nontrivial = distinct (endpoint, values) tuples",
-            "domain": dom, "exhaustive": True, "samples": samples, "failures": failures[:25], "failure_counts": counts,
+            "domain": dom, "exhaustive": tier == "quick", "samples": samples, "failures": failures[:25], "failure_counts": counts,
             "wall_s": round(time.time() - t0, 2)}
 
 
